@@ -70,9 +70,16 @@ C_GetPath(DS, post) == \A d \in DS : /\ d.found = (IF HasPath(post, d.id) THEN 1
                                      /\ d.found = 1 /\ HasPath(post, d.id) => Norm(d.p) = GetPath(post, d.id)
 C_Walk(post)    == {Norm(p) : p \in Rng(Ev.W)} = WalkAll(post) /\ Len(Ev.W) = Cardinality(WalkAll(post))
 
+ArgPaths == RawPaths \cup {<<>>}
+ValidCall(c) == /\ c.op \in {"create", "mkdir", "rename", "delete_path", "delete_oid", "set_oid", "update", "set_meta_path", "set_meta_oid"}
+                /\ c.p \in ArgPaths /\ c.q \in ArgPaths /\ c.i \in Ids \cup {0} /\ c.t \in {0, FILE, DIR} /\ c.m \in Metas \cup {0} /\ c.k \in {0, 1}
+                /\ (c.op \in {"delete_oid", "set_meta_oid"}) = (Len(c.p) = 0)
+                /\ (c.op = "rename") = (Len(c.q) > 0)
+                /\ c.op \in {"set_oid", "update"} => c.t # 0
+                /\ c.op \in {"create", "set_oid", "delete_oid", "set_meta_oid"} => c.i # 0
 \* the harness must have observed the whole universe, and the call must be one of the specification's
 HarnessOK(PS, DS, pre, c) == /\ {e.p : e \in PS} = RawPaths /\ {d.id : d \in DS} = Ids
-                             /\ c \in AllCalls /\ Fits(pre, c)
+                             /\ ValidCall(c) /\ Fits(pre, c)
 
 Failing(pre, c, post) ==
   LET TS == TSet  IM == ISet  PS == PSet  DS == DSet
@@ -102,7 +109,7 @@ TraceInit == /\ tid \in 1..Len(Traces)
 TraceNext ==
   /\ l <= Len(Tr)
   /\ LET c    == Call(Ev.c.op, Ev.c.p, Ev.c.q, Ev.c.i, Ev.c.t, Ev.c.m, Ev.c.k)
-         post == IF c \in AllCalls /\ Fits(node, c) THEN Eff(node, c) ELSE node
+         post == IF ValidCall(c) /\ Fits(node, c) THEN Eff(node, c) ELSE node
          F    == IF bad \/ Ev.j = 0 THEN {} ELSE Failing(node, c, post)
      IN /\ IF F = {} THEN TRUE
            ELSE TLCSet(1, TLCGet(1) \cup {<<tid, l, <<f, Tags(node, c)>>>> : f \in F})
